@@ -644,7 +644,38 @@ func scenC05(g *Gen, dir string) ([]*Op, func(e *Env, i int, op *Op, obs []strin
 	nsig := uint32(len(gs))
 	total := int64(nobj) + 6
 	contentEdit := -1
-	switch k := r.Intn(15); k {
+	vFinal := v
+	switch k := r.Intn(17); k {
+	case 16:
+		// an unsigned object whose group field names a signed group in its low 28 bits under
+		// another flag nibble than the library writes (another writer's encoding): it decodes as a
+		// member of that group
+		edit = "add an unsigned object whose group field names a signed group under a non-canonical flag nibble"
+		ops = append(ops, &Op{Kind: "add", T: TOpt{Kind: "det"}, DI: DI{DT: 0x4007, Fail: -1, Data: DataSpec{Lit: r.Bytes(4)}, Opts: []DIOpt{{Kind: "group", N: 7}}}},
+			&Op{Kind: "patch", Sites: []PatchSite{{Off: int64(4096) + 585*int64(nobj+nsig) + 9, B: []byte{byte(gid), 0, 0, pick(r, []byte{0x00, 0x80, 0x70, 0x10})}}}})
+	case 15:
+		// a stale co-signature behind a fresh one: the group gets a second signature by another
+		// key; the first signature is deleted; a member is replaced by an object with the same ID
+		// and other content; the group is signed again (the new signature takes the freed slot, in
+		// front of the second one, which still describes the replaced member)
+		edit = "replace a member, re-sign in front of a co-signature that describes the old member"
+		idx := 0
+		for k, x := range gs {
+			if x == gid {
+				idx = k
+			}
+		}
+		s2 := g.signKeys()
+		s2.Groups = []uint32{gid}
+		x := pick(r, groups[gid])
+		s3 := s
+		s3.Groups = []uint32{gid}
+		ops = append(ops, &Op{Kind: "sign", S: s2},
+			&Op{Kind: "del", Sel: Sel{Kind: "id", N: int64(nobj) + int64(idx) + 1}, T: TOpt{Kind: "det"}},
+			&Op{Kind: "del", Sel: Sel{Kind: "id", N: int64(x)}, T: TOpt{Kind: "det"}},
+			&Op{Kind: "add", T: TOpt{Kind: "det"}, DI: DI{DT: 0x4007, Fail: -1, Data: DataSpec{Lit: r.Bytes(9)}, Opts: []DIOpt{{Kind: "group", N: gid}}}},
+			&Op{Kind: "sign", S: s3})
+		vFinal = trustFor(dedupInts(append(append([]int{}, s.keyList()...), s2.keyList()...)))
 	case 14:
 		// AddObject of an object in a new group, cut short between its table write and its header
 		// write; the file is opened again with the old header (stale free count and data size)
@@ -728,7 +759,7 @@ func scenC05(g *Gen, dir string) ([]*Op, func(e *Env, i int, op *Op, obs []strin
 	g.count("edit:" + edit)
 	ops = append(ops, factsOp())
 	ver1 := len(ops)
-	ops = append(ops, &Op{Kind: "verify", V: v})
+	ops = append(ops, &Op{Kind: "verify", V: vFinal})
 	var orig protView
 	var origStruct string
 	check := func(e *Env, i int, op *Op, obs []string) *Violation {
@@ -812,14 +843,32 @@ func scenC04(g *Gen, dir string) ([]*Op, func(e *Env, i int, op *Op, obs []strin
 	r := g.r
 	create, groups := g.baseImage(2, 4)
 	s := g.signKeys()
-	ops := []*Op{keysOp(), create, {Kind: "sign", S: s}, factsOp()}
-	v := trustFor(s.keyList())
+	ops := []*Op{keysOp(), create}
+	subset := r.Chance(1, 5)
+	var v VOpts
+	if subset {
+		// only some objects are signed (one group, chosen objects of one or of several groups),
+		// possibly on an image whose objects another writer put in other table slots
+		if r.Chance(1, 2) {
+			if sw := g.swapSlotsOp(groups); sw != nil {
+				ops = append(ops, sw)
+				g.count("base:relocated")
+			}
+		}
+		s, v, _ = g.selection(groups)
+		g.count("request:what-was-signed")
+	}
+	ops = append(ops, &Op{Kind: "sign", S: s}, factsOp())
+	if !subset {
+		v = trustFor(s.keyList())
+	}
 	// what is asked to be verified: everything (default), one group, or chosen objects
-	switch r.Intn(4) {
-	case 0:
+	switch k := r.Intn(4); {
+	case subset:
+	case k == 0:
 		v.Groups = []uint32{pick(r, sortedGroups(groups))}
 		g.count("request:group")
-	case 1:
+	case k == 1:
 		ids := groups[pick(r, sortedGroups(groups))]
 		v.Objects = []uint32{pick(r, ids)}
 		if r.Chance(1, 2) {
@@ -874,6 +923,9 @@ func scenC04(g *Gen, dir string) ([]*Op, func(e *Env, i int, op *Op, obs []strin
 	mode := r.Intn(12)
 	if mode == 11 {
 		mode = 21 // a signature descriptor's Size enlarged
+	}
+	if r.Chance(1, 10) || (subset && r.Chance(1, 2)) {
+		mode = 22 // two objects exchange their IDs
 	}
 	if forge {
 		mode = 5 + r.Intn(2) // a data bit of an object
@@ -1035,6 +1087,26 @@ func fillPatch(g *Gen, op *Op, b []byte) {
 		tabEnd = len(b)
 	}
 	switch {
+	case mode == 22: // the ID fields of two in-use non-signature descriptors exchanged (positions relative to the groups change)
+		ts := parseTable(b, total)
+		var objs []tableSlot
+		for _, t := range ts {
+			if t.used && !t.sig {
+				objs = append(objs, t)
+			}
+		}
+		if len(objs) < 2 {
+			op.Sites = []PatchSite{flip(r.Intn(128))}
+			break
+		}
+		a := r.Intn(len(objs))
+		c := (a + 1 + r.Intn(len(objs)-1)) % len(objs)
+		// prefer two objects of different groups
+		for k := 0; k < 6 && objs[a].gid == objs[c].gid; k++ {
+			c = (a + 1 + r.Intn(len(objs)-1)) % len(objs)
+		}
+		op.Sites = []PatchSite{{Off: int64(objs[a].o + 5), B: put32(objs[c].id)}, {Off: int64(objs[c].o + 5), B: put32(objs[a].id)}}
+		g.count("tamper:two-object-ids-exchanged")
 	case mode == 21: // the Size of a signature object's descriptor enlarged: its reader runs on into what follows (to the end of the file if need be)
 		ts := parseTable(b, total)
 		var sigs []tableSlot
